@@ -17,6 +17,19 @@ PURE_EXTERNALS = {
 }
 
 
+def canon_bound(idx, body: Rat):
+    """Alpha-normalise the bound index of a SUM/argmin/MAX atom: rename it to #s<d>, d = nesting depth."""
+    d = 0
+    for i in body.deps():
+        n = poly.T.get(i).name if poly.T.get(i).kind == "sym" else ""
+        if n.startswith("#s") and n[2:].isdigit():
+            d = max(d, int(n[2:]) + 1)
+    new = poly.T.sym("#s%d" % d, ("int", "nonneg", "bound"))
+    if new.id == idx.id:
+        return idx, body
+    return new, poly.subst(body, {idx.id: Rat.atom(new)})
+
+
 class CallMixin:
     def ex_Call(self, node, frame):
         fv = self.eval(node.func, frame)
@@ -190,7 +203,8 @@ class CallMixin:
                 raise Unmodelled("sum of non-numeric family at %s" % frame.loc(node))
             if v.idx.id not in v.elem.r.deps():
                 return Num(v.elem.r * (v.hi - v.lo))
-            return Num(Rat.atom(poly.T.app("fn", "SUM", (Rat.atom(v.idx), v.lo, v.hi, v.elem.r))))
+            ci, cb = canon_bound(v.idx, v.elem.r)
+            return Num(Rat.atom(poly.T.app("fn", "SUM", (Rat.atom(ci), v.lo, v.hi, cb))))
         raise Unmodelled("sum of %r at %s" % (v, frame.loc(node)))
 
     def call_ext(self, dotted, self_val, args, kwargs, frame, node):
